@@ -1,6 +1,6 @@
 SPECIFICATION Spec
 CONSTANTS
-  NStmts = 40
+  NStmts = 120
   MaxDepth = 2
   MaxCases = 4
   MaxSeq = 3
